@@ -65,29 +65,201 @@ NOT_APPLICABLE = {
 }
 
 
-def _p(pid, rules, technique, explanation, not_decided, level_text, trusted=None, level='other', thorough_rules=None):
+FRAME = ('The statement of {pid} quantifies over run-time values (all graphs / trees / texts), which no static argument in '
+         'reach decides as a whole. This check decides, from the current source on every run, the structural clauses listed '
+         'below; each is a necessary condition of the property (breaking it breaks the behaviour for some input) and each '
+         'violation names the construct and, where it applies, a witness string or path. ')
+
+
+def _p(pid, rules, technique, decided, not_decided, level_text, trusted=None, level='other', thorough_rules=None):
     PROPS[pid] = {
-        'level': level, 'rules': rules, 'technique': technique, 'explanation': explanation,
+        'level': level, 'rules': rules, 'technique': technique, 'explanation': FRAME.format(pid=pid) + decided,
         'not_decided': not_decided, 'level_text': level_text, 'trusted_base': trusted or [],
         'design_ref': f'DESIGN.md section 5 ({pid})', 'thorough_rules': thorough_rules or [],
     }
 
 
-_p('C02', ['R1', 'R36', 'R49', 'R28', 'R29', 'R5', 'R12'], 'abstract interpretation of two parallel lists; must-pass-through / at-most-once path checks on CFGs',
-   'TODO', 'TODO', 'TODO')
-_p('C03', ['R4', 'R50', 'R51', 'R12', 'R28', 'R29', 'R64', 'R67'], 'interprocedural structural type inference + truthiness-context lint', 'TODO', 'TODO', 'TODO')
-_p('C04', ['R5', 'R1b', 'R8h', 'R11', 'R49', 'R51', 'R58', 'R29'], 'call-graph reachability + class-override scan; typed lookup lint; regex alphabets', 'TODO', 'TODO', 'TODO')
-_p('C05', ['R26', 'R27', 'R47', 'R23model', 'R14', 'R50'], 'symbolic list-shape evaluation; class-hierarchy check; typestate over sort/top', 'TODO', 'TODO', 'TODO')
-_p('C07', ['R19', 'R9', 'R16', 'R43', 'R18', 'R35', 'R10', 'R6', 'R23lex'], 'typestate dataflow on CFGs; call-result-use lint; provenance', 'TODO', 'TODO', 'TODO')
-_p('C09', ['R6', 'R37', 'R12', 'R45'], 'splitter table + regex language equivalence', 'TODO', 'TODO', 'TODO')
-_p('C10', ['R11', 'R30', 'R31', 'R52'], 'typed lookup lint; loop-shape path checks; may-analysis of freshness', 'TODO', 'TODO', 'TODO')
-_p('C11', ['R31', 'R3', 'R38', 'R33', 'R36', 'R44', 'R62', 'R63'], 'may-analysis of freshness; constructor-argument lint; control-dependence facts', 'TODO', 'TODO', 'TODO')
-_p('C12', ['R2', 'R3', 'R31', 'R14', 'R53', 'R24', 'R33', 'R63', 'R65', 'R66'], 'typed partial-map access lint with dominating guards', 'TODO', 'TODO', 'TODO')
-_p('C13', ['R29', 'R28', 'R23model', 'R24m', 'R30', 'R48'], 'propositional equivalence of sibling predicates; ordering on CFG paths', 'TODO', 'TODO', 'TODO')
-_p('C14', ['R2', 'R1', 'R36', 'R44', 'R61', 'R66'], 'partial-map lint; path checks on the context stack simulation', 'TODO', 'TODO', 'TODO')
-_p('C15', ['R21', 'R22', 'R23top', 'R39', 'R14', 'R54', 'R55', 'R57'], 'predicate extraction + truth table; guard-before-store may-analysis', 'TODO', 'TODO', 'TODO')
-_p('C16', ['R40', 'R28', 'R29', 'R7'], 'loop-carried status accumulation dataflow; must-pass-through', 'TODO', 'TODO', 'TODO')
-_p('C17', ['R14', 'R13', 'R15', 'R60', 'R61'], 'set-iteration classification on inferred types; comparison lint', 'TODO', 'TODO', 'TODO')
-_p('C19', ['R10', 'R9', 'R41', 'R16', 'R56', 'R37', 'R18', 'R59', 'R8d', 'R8e'], 'token-class coverage via reaching definitions', 'TODO', 'TODO', 'TODO')
-_p('C20', ['R24', 'R25', 'R12', 'R42', 'R7', 'R13', 'R20', 'R31', 'R38', 'R2', 'R53'], 'CFG order / guard facts / argument threading', 'TODO', 'TODO', 'TODO')
-_p('C01', ['R20', 'R8g', 'R8f', 'R8d', 'R8e', 'R45', 'R23lex'], 'option-taint abstract interpretation of the formatter; regex automata for adjacency', 'TODO', 'TODO', 'TODO')
+T_CFG = 'pv/cfg.py statement CFG (exceptions from calls are not modelled as edges except where a rule says so)'
+T_CG = 'pv/callgraph.py name/attribute based call resolution (dynamic dispatch through values of unknown type is not followed)'
+T_TY = 'pv/tyeng.py structural type inference (annotations in penman/types.py are taken as given)'
+T_DOC = 'the documented behaviour transcribed in spec/*.json (docs/notation.rst, docs/api, command-line help)'
+
+_p('C01', ['R20', 'R8g', 'R8f', 'R8d', 'R8e', 'R45', 'R23lex'],
+   'option-taint abstract interpretation of the formatter; regex automata for the adjacency of written pieces',
+   'R20: in penman/_format.py the values of indent and compact can reach only whitespace pieces (taint analysis over every '
+   'string the formatter concatenates or joins); content, order and presence of the other pieces do not depend on them. R8g: '
+   'for every pair of pieces the formatter writes without whitespace in between (role~alignment, atom~alignment, "(" var, '
+   '"/" concept ...) the concatenation is lexed back as exactly those two tokens (product automata over the token classes). '
+   'R8f/R8d/R8e: delimiters are outside SYMBOL and the ROLE tail, classes equal the documented lexical grammar, first-character '
+   'dispatch is the documented one. R45: a metadata line is written as "# ::key value", the form the comment scanner splits back. '
+   'R23lex: tokens carry the text of their match.',
+   'Equality of the re-parsed tree with the original (a round trip over all trees) is not decided; trees built by hand from '
+   'strings that are not grammar-valid are outside the statement. The parser side is covered at token-kind level by C07.',
+   'Exact decisions on regex languages and on the dataflow of two option values; a set of necessary conditions, not a proof of the round trip.',
+   [TRUST_RE, 'pv/rx.py', T_CFG])
+_p('C02', ['R1', 'R36', 'R49', 'R28', 'R29', 'R5', 'R12'],
+   'abstract interpretation of two parallel lists; must-pass-through / exactly-once path checks on CFGs; propositional equivalence of sibling predicates',
+   'R1: _interpret_node updates the triple list and the epidata list with the same operation in the same order on every path '
+   '(so triples[i] and epidata[i] stay in step) and attaches POP to the last epidata entry of the nested node. R36: exactly one '
+   'Push, one POP and one recursive call on every path through the nested-node arm; _preconfigure reads the markers of every '
+   'triple and queues one POP per Pop marker after the triple; _configure_node closes one level per Pop and opens one per '
+   'honoured Push; node_contexts pops once per marker. R49: alignment text is split without losing a character. R28/R29: '
+   'invert_role, is_role_inverted, deinvert and has_role agree (boolean equivalence), suffix tests and slices agree in length. '
+   'R5/R12: interpretation deinverts only through Model.deinvert and the codec hands its model to every model-taking call.',
+   'That configure replays the markers into an equal tree for every well-formed tree (a statement about the data-dependent '
+   'search in layout.configure) is not decided.',
+   'Path and pairing facts that hold on every CFG path of the anchored functions; necessary conditions of the round trip.',
+   [T_CFG, T_CG])
+_p('C03', ['R4', 'R50', 'R51', 'R12', 'R28', 'R29', 'R64', 'R67'],
+   'structural type inference + truthiness-context lint; regex language intersection on model role tables; must-pass-through on the node map',
+   'R4: no value typed as a constant (target, concept, tree atom) is tested for truthiness anywhere on the encode/decode paths, '
+   'so 0, 0.0 and "" are never dropped. R50: only variables become keys of the node map. R51: the alignment of a quoted atom '
+   'starts after its last quote. R12: the codec model reaches configure/interpret. R28/R29: the model predicates that decide '
+   'inversion agree. R64: no open-class pattern of a shipped role table matches a role ending in -of (witness by automata '
+   'intersection). R67: _configure_node replaces a node-map entry by a fresh node only after reading the existing entry (one '
+   'node per variable; defect F17 was a path that skipped this).',
+   'Success of configure for every connected graph and every top, and equality of the decoded graph (the improvisation search '
+   'of layout.configure, see C06) are not decided.',
+   'Type-based lint with zero tolerated sites, an exact language decision, and a path check; necessary conditions only.',
+   [T_TY, T_CFG, TRUST_RE])
+_p('C04', ['R5', 'R1b', 'R8h', 'R11', 'R49', 'R51', 'R58', 'R29'],
+   'call-graph reachability + class-override scan; typed lookup lint; regex alphabets; path conditions',
+   'R5: every deinversion in interpretation goes through Model.deinvert, the hook NoOpModel overrides. R1b: a node without a '
+   'concept gets (var, :instance, None) inserted at position 0, exactly when no "/" branch was seen. R58: the variable set used '
+   'to tell edges from attributes is the variables of all nodes of the tree, the top included, and is passed down unchanged. '
+   'R11: a raw atom is never looked up among variables with its ~alignment attached. R8h/R49/R51: the lexical facts the '
+   'alignment split relies on (no "~" in a role/symbol body other than the alignment, quoted atoms split after the last quote). '
+   'R29: deinvert inverts exactly when is_role_inverted(role), once.',
+   'That the list of triples equals the documented reading for every text is not decided as a whole (depth-first order is '
+   'covered by R1 under C02).',
+   'Structural necessary conditions; each violation names the call or branch.', [T_CG, T_TY, TRUST_RE])
+_p('C05', ['R26', 'R27', 'R47', 'R23model', 'R14', 'R50'],
+   'symbolic list-shape evaluation; class-hierarchy check; typestate over sort/top; regex language equivalence; points-to mutation effects',
+   'R26: _rearrange stores concat(b[:k], sorted(b[k:], key=key)) with k = 1 exactly under the test that establishes a leading '
+   '"/" branch and k = 0 otherwise (a permutation that keeps the concept first, stable, ascending), recurses into every nested '
+   'node, and reconfigure changes the copied triple list only by list.sort(key=...). R27: reconfigure removes exactly Push and '
+   'Pop markers (class hierarchy), never alignments. R47: the top is resolved before the triples are reordered (defect F15). '
+   'R23model: alphanumeric_order splits with a pattern language-equivalent to (.*\\D)(\\d+)$ whose name group cannot end in a '
+   'digit and compares the number as int; canonical_order is (is_role_inverted, alphanumeric). R14: reconfigure/rearrange do '
+   'not mutate their graph argument (points-to + mutation events). R50: only variables key the node map.',
+   'That configure of the reordered triples yields the same graph content (needs C06) is not decided.',
+   'Exact symbolic facts on the anchored functions plus a whole-program mutation analysis; necessary conditions.',
+   [T_CFG, T_TY, 'pv/effects.py Andersen-style points-to with type-pruned flow', TRUST_RE])
+_p('C07', ['R19', 'R9', 'R16', 'R43', 'R18', 'R35', 'R10', 'R6', 'R23lex'],
+   'token-kind abstract interpretation of the parser against a reference recogniser (bounded); typestate dataflow; call-result-use lint',
+   'R19: the parser functions and TokenIterator are interpreted over token *kinds* (all sequences up to length 5, nesting 2 in '
+   'the quick tier; 8 and 3 in the thorough tier) and acceptance, tree skeleton and the index of the failing token are compared '
+   'with a hand-written recogniser of the documented grammar. R16/R43: next() is called only after a successful peek, and the '
+   'last-token state survives exhaustion (so no StopIteration escapes and end-of-input errors point at the end of the last '
+   'token). R9: an error object that is built is raised. R18: only DecodeError is raised explicitly on parse paths; implicit '
+   'raise sites are inventoried. R35: frames per nesting level leave room for 200 levels. R10: every token class is known to '
+   'the parser. R6/R23lex: line splitting and token positions.',
+   'The kind-level interpretation abstracts token text (the fused triple form role(a,b) is handled by R59 under C19) and is '
+   'bounded in length and depth; unbounded equivalence with the documented grammar is not proved.',
+   'Bounded-exhaustive comparison at the level of token kinds (no input text is lexed or parsed by penman) plus exact typestate facts.',
+   [T_CFG, 'pv/pfsm.py reference recogniser (hand-written from docs/notation.rst)', T_DOC])
+_p('C09', ['R6', 'R37', 'R12', 'R45'],
+   'splitter regex language equivalence; reachability of the one lexer; symbolic output pieces of the stream writer',
+   'R6: string input is split by a regex whose language equals \\r\\n|\\r|\\n (defect F2 was str.splitlines). R37: every '
+   'decoding entry point reaches the one lexer with its argument unmodified, comments and node come from one token stream, '
+   '_dumps joins with exactly one empty line and _dump_stream writes [text, LF] then [LF, text, LF] per further graph and '
+   'survives an empty sequence. R12: the model is forwarded. R45: metadata is written in the form the comment scanner reads back.',
+   'Equality of the decoded graphs across containers for every text is not decided; file iteration semantics of CPython are trusted.',
+   'Exact language decision and call-shape facts; necessary conditions.', [TRUST_RE, T_CG, 'text-mode file iteration splits at LF, CRLF, CR (universal newlines)'])
+_p('C10', ['R11', 'R30', 'R31', 'R52'],
+   'typed lookup lint; loop-shape path checks; may-analysis of freshness',
+   'R30: _map_vars yields exactly one output branch per input branch, passes roles through, rewrites a target only by recursion '
+   'into nested nodes or by the variable map on non-concept atoms, keeps the alignment suffix, and returns the output list (never '
+   'the input list). R11: the key looked up in the map is the atom without its ~alignment (defect F7). R52: reset_variables maps '
+   'every node variable not yet mapped and always applies the map. R31: a generated name is accepted only after a membership '
+   'test against the used names and is recorded before the next search (bijection).',
+   'That interpretation commutes with the renaming is not decided.',
+   'CFG path facts on three functions; necessary conditions.', [T_CFG, T_TY])
+_p('C11', ['R31', 'R3', 'R38', 'R33', 'R36', 'R44', 'R62', 'R63'],
+   'may-analysis of freshness; constructor-argument lint; closed-world listing of what flows into a set; control-dependence facts',
+   'R31: reify_edges / Model.reify accept a new variable only after testing it against the variables in use. R3: transformed '
+   'graphs are built with the argument\'s top. R38: a node enters the dereification agenda only if it is not in the fixed set, '
+   'has exactly two relations and a dereifiable concept; everything that flows into the fixed set is listed (top and every '
+   'non-instance target, not conditional on a map the same loop is still filling). R33/R63 marker migration: every '
+   'marker bucket is carried over and alignments keep their prefix. R62: the search through a (de)reification table goes on '
+   'after a non-matching entry. R36/R44: the layout diagnostics reify_edges relies on.',
+   'That dereify(reify(g)) equals g down to the text is not decided.',
+   'Dataflow and path facts; necessary conditions.', [T_CFG, T_CG])
+_p('C12', ['R2', 'R3', 'R31', 'R14', 'R53', 'R24', 'R33', 'R63', 'R65', 'R66'],
+   'typed partial-map access lint with dominating guards; pipeline order on CFG paths; selection-predicate equivalence',
+   'R2: Graph.epidata is treated as a partial map everywhere (every keyed read is guarded, uses .get, or is total by '
+   'construction; defect F9). R3: every transformation passes top= (defect F12). R53: configure drops superfluous POPs before '
+   'and after each improvised round. R66: a list that a function pops is not indexed at [-1] unless known non-empty (defect '
+   'F16: node_contexts after dereification). R24: the tool applies the transformations in the documented order. R33/R63/R65: '
+   'markers of a replaced triple are carried over (dereification drops role alignments only). R31: fresh variables. R14: '
+   'arguments are not mutated.',
+   'That every composition returns a graph that encodes and decodes to itself is not decided (needs C06).',
+   'Lint with zero tolerated sites plus path facts; necessary conditions.', [T_TY, T_CFG, 'pv/effects.py'])
+_p('C13', ['R29', 'R28', 'R23model', 'R24m', 'R30', 'R48'],
+   'propositional equivalence of sibling predicates (truth tables over syntactic atoms); expression-flow expansion; cache-key dependence',
+   'R29: is_role_inverted == (not defined and ends in -of); invert_role strips exactly when inverted and appends otherwise; '
+   'has_role == defined or single inversion of a defined role; deinvert inverts once, exactly when inverted; the role pattern '
+   'is a grouped, anchored alternation. R28: suffix literal and slice length agree; -of is never cut by partition/replace/strip. '
+   'R24m: on every return path canonicalize_role applies the table lookup to the inversion-normalised role, last; '
+   '_canonicalize_inversion rewrites through invert_role only, twice per round. R23model: invert swaps source and target, the '
+   'no-op deinvert returns its argument. R30: canonicalize_roles changes role text only. R48: a local cache is keyed by '
+   'everything its value depends on.',
+   'Idempotence and involution as algebraic laws over all role strings are not proved; a re-implementation of '
+   '_canonicalize_inversion by other means is reported as undecided (exit 2).',
+   'Exact boolean equivalences with counter-assignments; necessary conditions.', [T_CFG])
+_p('C14', ['R2', 'R1', 'R36', 'R44', 'R61', 'R66'],
+   'partial-map lint; path checks on the context-stack simulation; module-state lint',
+   'R36: node_contexts pushes the pushed variable of a triple and pops once per Pop marker (no early exit, no "any"); R44: '
+   'appears_inverted answers False outright only for instance/attribute triples, compares the pushed variable with the source '
+   'and the node context with the target; R1: the markers it reads are in step with the triples; R2/R66: the diagnostics do not '
+   'raise on graphs without markers or with surplus POPs; R61: no result is cached in module-level state keyed by a graph.',
+   'Agreement of the reported contexts with the text for every decoded graph is not decided; replacing the stack simulation by '
+   'another algorithm is reported as undecided (exit 2).',
+   'Path facts on three functions; necessary conditions.', [T_CFG, T_TY])
+_p('C15', ['R21', 'R22', 'R23top', 'R39', 'R14', 'R54', 'R55', 'R57'],
+   'selection-predicate summaries + truth tables; symbolic path enumeration; guard-before-store may-analysis; points-to mutation effects',
+   'R21: the selection predicates of instances/edges/attributes (derived through comprehensions, loops, helpers and '
+   '_filter_triples) are pairwise disjoint and jointly exhaustive, edges == not instance and target in variables(), a filter '
+   'selects iff every given component equals its slot, elements are the triples themselves. R39: no reordering between '
+   'self.triples and a query result; union appends in the order of other.triples. R23top: the getter returns triples[0][0] '
+   'exactly when no explicit top is set and triples exist. R22: the setter stores only after `is None` or `in variables()`. '
+   'R54/R57: difference resets an explicit top exactly when it occurs in no remaining triple; derived graphs keep an implicit top '
+   'implicit. R55: re-entrancy counting. R14: non-in-place operators do not mutate operands.',
+   'That union/difference carry markers along for every operand pair is covered only by R14/R39 shapes.',
+   'Exact propositional decisions over the predicates found in the source; necessary conditions (close to complete for the query clauses).',
+   [T_CFG, 'pv/select.py selection summaries', 'pv/effects.py'])
+_p('C16', ['R40', 'R28', 'R29', 'R7'],
+   'must-pass-through on the checking loop; loop-carried status accumulation dataflow',
+   'R40: Model.errors loops over all of graph.triples, tests has_role on the role the triple carries on every iteration, records '
+   '"invalid role" under exactly that test, builds reachability only over targets that are variables of the graph, and records '
+   '"unreachable" per triple. R29/R28: has_role is defined-or-single-inversion. R7: in __main__ the status of every graph and '
+   'every file is OR-ed into the value passed to sys.exit (defect F3), with no short-circuit.',
+   'Completeness of the reachability computation (_dfs) for every graph is not decided.',
+   'Path and dataflow facts; necessary conditions.', [T_CFG, T_CG])
+_p('C17', ['R14', 'R13', 'R15', 'R60', 'R61'],
+   'whole-program points-to with mutation events against a table of pure entry points; set-iteration classification on inferred types',
+   'R14: for every entry point listed in spec/pure_api.json no mutation event (attribute/subscript store, mutating method, '
+   'in-place operator) can reach an object that is reachable from an argument or from module-level state (Andersen-style '
+   'points-to, constructor contexts, copies modelled as clones). R13: every iteration over a value that may be a set is sorted, '
+   'consumed order-insensitively, or frozen with a reason. R15: POP is tested by type. R60/R61: no memoisation of functions '
+   'returning mutable objects, no argument-dependent result kept in module-level state.',
+   'Determinism across processes beyond hash-order effects (e.g. random_order by design) is not decided.',
+   'A sound-by-construction may-analysis (over-approximate flow, so a pass means no mutation path exists in the model) plus lints.',
+   ['pv/effects.py (heap model: one object per allocation site and constructor context; strings/numbers carry no objects)', T_CG, T_TY])
+_p('C19', ['R10', 'R9', 'R41', 'R16', 'R56', 'R37', 'R18', 'R59', 'R8d', 'R8e'],
+   'token-class coverage via reaching definitions; regex language decisions on TRIPLE_RE; output-shape check of the writer',
+   'R56: format_triples writes role(source, target) per triple joined by " ^" and LF or space. R41: the writer strips the leading '
+   'colon and the reader/Graph restores it. R10: every token class of TRIPLE_RE is handled by _parse_triple and STRING is accepted '
+   'where the writer emits it (defect F8). R59: the fused token role(a,b) is split at the first comma only. R9/R16/R18: errors are '
+   'raised, no StopIteration escapes. R8d/R8e: the token classes of TRIPLE_RE are the documented ones.',
+   'Equality of the parsed list with the written list for all symbol/string contents is not decided.',
+   'Reaching-definition and language facts; necessary conditions.', [TRUST_RE, T_CFG])
+_p('C20', ['R24', 'R25', 'R12', 'R42', 'R7', 'R13', 'R20', 'R31', 'R38', 'R2', 'R53'],
+   'CFG order of pipeline calls with interprocedural summaries; guard facts per option; argument threading',
+   'R24: on every path through process/_process_in/_process_out the operations occur in the documented order (spec/pipeline.json). '
+   'R25: every documented option is defined, feeds its own entry of the option dicts, and guards exactly its own operation. '
+   'R12: the session model reaches every model-taking call (defect F13). R42: one graph is printed per parsed tree, in order, '
+   'with one separator, and the printed text is the formatter result. R7: exit status. R20: formatting options touch whitespace '
+   'only. R13: no hash order in output.',
+   'Byte-for-byte idempotence of the output is not decided.',
+   'Path, guard and threading facts on penman/__main__.py; necessary conditions.', [T_CFG, T_CG, T_DOC])
